@@ -180,8 +180,12 @@ class ReducerWorld(World):
                         f = ro.choice([0.5, 0.25, 0.8, round(ro.uniform(0.15, 0.85), 2)])
                         times.append((k + f) * dt)
                 form = "scalar" if ro.random() < 0.3 else ("tensor" if D == 0 else "tensorD")
+                vtol = ro.choice([None, 1e-6, 1e-3])
+                if vtol == 1e-3 and ro.random() < 0.6:
+                    # times a quarter of the caller's tolerance away from a recorded step: the recorded value, not an interpolation
+                    times = [(t + 2.5e-4 if round(t / dt) < n - 1 else t - 2.5e-4) if abs(t / dt - round(t / dt)) < 1e-9 and (n > 1) else t for t in times]
                 ops.append({"op": "view", "times": times[0] if form == "scalar" else times, "form": form, "D": D,
-                            "tol": ro.choice([None, 1e-6, 1e-3])})
+                            "tol": vtol})
             elif r < 0.92 and not kind.startswith("fn_"):
                 ops.append({"op": "dump"})
             else:
